@@ -13,7 +13,7 @@
 (* Scores are integers (TLC has no floats); bounds may be -inf/+inf.       *)
 (* Every entry also has x: the time to live in seconds as it was last set  *)
 (* (0 = the key is persistent).  Time does not pass in the model: a TTL    *)
-(* reply is compared with a window (cmp "alt": x or x - 1), and programs   *)
+(* reply is compared with a window (cmp "alt": x - 3 .. x), and programs   *)
 (* use expiries far longer than a run.  What the model does state is which *)
 (* commands keep, clear, set or move a key's expiry.                       *)
 (*                                                                         *)
@@ -251,7 +251,7 @@ Exec(ks, name, args) ==
          IF ~Has(ks, k) THEN Res(IntR(0), ks)
          \* the same number of seconds as the current expiry under GT / LT: whether the new deadline is later depends on
          \* the clock's resolution; either answer, and the expiry is t in both cases
-         ELSE IF w \in {"GT", "LT"} /\ cur # 0 /\ t = cur THEN [reply |-> IntR(1), ks |-> ks, cmp |-> "alt", alt |-> IntR(0)]
+         ELSE IF w \in {"GT", "LT"} /\ cur # 0 /\ t = cur THEN [reply |-> IntR(1), ks |-> ks, cmp |-> "alt", alt |-> {IntR(0)}]
          ELSE IF (w = "NX" /\ cur # 0) \/ (w = "XX" /\ cur = 0) \/ (w = "GT" /\ (cur = 0 \/ t <= cur)) \/ (w = "LT" /\ cur # 0 /\ t >= cur)
               THEN Res(IntR(0), ks)
          ELSE IF t <= 0 THEN Res(IntR(1), Drop(ks, k))
@@ -259,7 +259,7 @@ Exec(ks, name, args) ==
     [] name = "TTL" /\ n = 1 ->
          IF ~Has(ks, A(args, 1)) THEN Res(IntR(0 - 2), ks)
          ELSE IF XOf(ks, A(args, 1)) = 0 THEN Res(IntR(0 - 1), ks)
-         ELSE [reply |-> IntR(XOf(ks, A(args, 1))), ks |-> ks, cmp |-> "alt", alt |-> IntR(XOf(ks, A(args, 1)) - 1)]
+         ELSE [reply |-> IntR(XOf(ks, A(args, 1))), ks |-> ks, cmp |-> "alt", alt |-> {IntR(XOf(ks, A(args, 1)) - d) : d \in 1..3}]
     [] name = "KEYS" /\ n = 1 -> ResC(BulkArr(SetToSeq({k \in DOMAIN ks : Match(A(args, 1), k)})), ks, "bag")
     \* one complete SCAN call (cursor 0, COUNT larger than the keyspace): the selected keys; the cursor value is not judged
     [] name = "SCAN" /\ n = 5 /\ IsInt(args[1]) /\ args[1].big = "" /\ args[1].n = 0 /\ args[2].k = "word" /\ args[2].w = "MATCH"
@@ -365,6 +365,6 @@ ReplyMatches(r, v) ==
     [] r.cmp = "pairs" -> v.t = "arr" /\ Len(v.e) = Len(r.reply.e) /\ PairsOf(v) = PairsOf(r.reply)
     [] r.cmp = "scan"  -> /\ v.t = "arr" /\ Len(v.e) = 2 /\ v.e[1].t = "bulk" /\ v.e[2].t = "arr"
                           /\ Len(v.e[2].e) = Len(r.reply.e[2].e) /\ BagOf(v.e[2]) = BagOf(r.reply.e[2])
-    [] r.cmp = "alt"   -> v = r.reply \/ v = r.alt      \* TTL: up to one second may have passed
+    [] r.cmp = "alt"   -> v = r.reply \/ v \in r.alt    \* TTL: a few seconds may have passed since the expiry was set
     [] OTHER -> TRUE
 =============================================================================
